@@ -136,8 +136,6 @@ func c03Run(c c03Case, st *vlib.Stats) string {
 	os.RemoveAll(imgRoot)
 	defer os.RemoveAll(imgRoot)
 	defer func() { storage.VerifHook = nil }()
-	storage.VerifWrapWAL = c.WrapLog
-	defer func() { storage.VerifWrapWAL = false }()
 	eng, err := mk.Start(dir)
 	if err == nil {
 		if err = CreateDatabases(eng); err == nil {
@@ -146,6 +144,9 @@ func c03Run(c c03Case, st *vlib.Stats) string {
 	}
 	if err != nil {
 		return "setup failed: " + err.Error()
+	}
+	if c.WrapLog {
+		eng.RS().VerifWrapLog()
 	}
 	defer func() { eng.Crash(true) }()
 	m := model.NewDB()
@@ -198,6 +199,9 @@ func c03Run(c c03Case, st *vlib.Stats) string {
 			eng = e2
 			if err := eng.Exec("USE " + DBName); err != nil {
 				return "USE after restart failed: " + err.Error()
+			}
+			if c.WrapLog {
+				eng.RS().VerifWrapLog()
 			}
 			if msg := CompareAll(eng, m, nil); msg != "" {
 				return fmt.Sprintf("after the restart (%s) before statement %d: %s", how, i, msg)
